@@ -40,32 +40,26 @@ Proof.
   - vm_compute. reflexivity.
 Qed.
 
-(* ---- an allocation limit just below 4 GiB: round(end, pageSize) wraps to 0,
-        extend extends nothing and the reservation loop never ends ---- *)
+(* ---- an allocation limit just below 4 GiB: round(end, pageSize) would wrap
+        to 0.  Before fix 633eed3 extend then extended nothing and the
+        reservation loop never ended (finding limit-wrap-hang); now the call
+        fails with errCorrupt and the file is untouched ---- *)
 Definition wrapf : bfile := mk_file 16384 (put32 (wH + c_limitOff) 4294967040).
 
-Lemma wrap_limit : load32 wrapf (wH + c_limitOff) = Some 4294967040. Proof. vm_compute. reflexivity. Qed.
-Lemma wrap_place : place32 wH 4294967040 (N.of_nat (length nx)) = (4294967040, 4294967072).
-Proof. vm_compute. reflexivity. Qed.
-Lemma wrap_round : round32 4294967072 RPAGE = 0. Proof. vm_compute. reflexivity. Qed.
-
-Lemma wrap_reserve : forall fuel head, reserve true fuel wrapf wH nx head = (NFuel, wrapf).
+Theorem newcounter_wrap_fixed :
+  place32 wH 4294967040 (N.of_nat (length nx)) = (4294967040, 4294967072) /\ round32 4294967072 RPAGE = 0 /\
+  new_counter wrapf wH nx = (NErr RCorrupt, wrapf).
 Proof.
-  induction fuel as [|k IH]; intro head; [reflexivity|].
-  cbn [reserve]. rewrite wrap_limit, wrap_place.
-  change (b_len wrapf <? 4294967072) with true. cbv iota. rewrite wrap_round.
-  change (b_len wrapf <? 0) with false. cbv iota. change (b_len wrapf <? 0) with false. cbv iota. apply IH.
-Qed.
-
-Theorem newcounter_wrap_refuted :
-  table_end wH + 4 <= b_len wrapf /\ wraps wrapf wH nx = true /\
-  forall rfuel, fst (new_counter_gen true true (walk_fuel wrapf) rfuel wrapf wH nx) = NFuel.
-Proof.
-  split; [vm_compute; discriminate|]. split; [vm_compute; reflexivity|].
-  intro rfuel. unfold new_counter_gen.
+  split; [vm_compute; reflexivity|]. split; [vm_compute; reflexivity|].
+  unfold new_counter, new_counter_gen.
   change (N.of_nat (length nx) =? 0) with false. change (c_maxNameLen <? N.of_nat (length nx)) with false. cbv iota.
   replace (lookup_gen true (walk_fuel wrapf) wrapf wH nx) with (LNotFound 0) by (vm_compute; reflexivity).
-  rewrite wrap_reserve. reflexivity.
+  cbn [reserve].
+  replace (load32 wrapf (wH + c_limitOff)) with (Some 4294967040) by (vm_compute; reflexivity).
+  replace (place32 wH 4294967040 (N.of_nat (length nx))) with (4294967040, 4294967072) by (vm_compute; reflexivity).
+  replace ((4294967040 <? 4294967040) || (4294967072 <? 4294967040) || (round32 4294967072 RPAGE <? 4294967072)) with true
+    by (vm_compute; reflexivity).
+  reflexivity.
 Qed.
 
 (* ---- a small damaged limit: without the bound of fix 69df376 in
